@@ -48,10 +48,10 @@ VM_STUBS = ["std::hash::RandomState::new -> fixed keys", "std::fmt::format -> em
 CALL_STUBS = VM_STUBS + ["VM::call_cached_native -> arbitrary Ok(value)/Err, records the native's name",
                          "VM::ensure_function_verified -> Ok(()) (objects are built verified=true; the verifier has its own obligations)",
                          "VM::prepare_globals_for_function / sync_current_function_globals -> assume(false): one global layout only",
-                         "VM::print_value -> no-op (stdout)"]
+                         "VM::print_value -> no-op (stdout)", "VM::verify_function_value -> Ok(()) (re-verification of an instantiated nested function; the verifier has its own obligations)"]
 SHELL_PATH = "vm::dispatch::verif_shell::"
 RELEASE_ENV = {"CARGO_PROFILE_DEV_DEBUG_ASSERTIONS": "false"}
-C04_QUICK = {0, 1, 5, 18, 21, 22, 36, 52, 125, 135, 161}
+C04_QUICK = {0, 1, 5, 18, 21, 22, 36, 52, 80, 125, 135, 161}
 
 
 def _c04():
@@ -86,8 +86,8 @@ ob("C18", "O2", "leaf", "c18_layout.rs", "c18_o2_align_to", timeout=120, stubbin
 ob("C18", "O4", "leaf", "c18_layout.rs", "c18_o4_references_by_value", timeout=120, stubbing=True,
    what="references_by_value holds iff the struct is mentioned outside a pointer", functions=LAYOUT_FNS, bounds="type depth <= 2, two names")
 
-for _h, _shape in (("c04_v1_shape_w1_k0", "1 word, no constants"), ("c04_v1_shape_w2_k1_nested", "2 words, 1 constant, nested function"),
-                   ("c04_v1_shape_w3_k2_nested_upvals", "3 words, 2 constants, nested function with an upvalue descriptor, own upvalue descriptor"),
+for _h, _shape in (("c04_v1_shape_w1_k0", "1 word, no constants"), ("c04_v1_shape_w2_k1", "2 words, 1 constant"),
+                   ("c04_v1_shape_w3_k2", "3 words, 2 constants, own upvalue descriptor"),
                    ("c04_v1_shape_w1_k1_upval", "1 word, 1 constant, own upvalue descriptor")):
     ob("C04", "V1_" + _h.split("shape_")[1], "runtime", "shell.rs", _h, path=SHELL_PATH + _h, tier="thorough", timeout=3000,
        args=["--default-unwind", "5"],
@@ -103,7 +103,7 @@ ob("C04", "V2", "runtime", "shell.rs", "c04_v2_from_u8_declared_only", path=SHEL
 
 # ---------------------------------------------------------------- C06 / C02 (generated differential steps) + leaf selection
 C06_QUICK = {"LtIIG", "LtFFG", "EqIIG", "SubII", "AndII"}
-C02_QUICK = {"Add", "Lt", "Shl"}
+C02_QUICK = {"Add", "Lt", "Ge", "Shl"}
 
 
 def _c06_c02():
@@ -117,6 +117,7 @@ def _c06_c02():
     modes = {"MODE_ANY": "any Value in the operand registers", "MODE_INTS": "operand registers hold ints", "MODE_FLOATS": "operand registers hold floats",
              "MODE_PROMOTED": "any Value; the generic twin runs on float-promoted operands (a guarded float opcode is defined as 'treat ints as floats')",
              "MODE_NOFLOAT": "any Value except floats (float * / % kernels do not finish in CBMC)",
+             "MODE_PROMOTED_SMALL_RIGHT": "left operand any Value, right operand an int in -8..=8, one of the floats 0.5, 2.0, -1.5, inf, or a non-number; generic twin on float-promoted operands (two full-width symbolic float multipliers/dividers do not finish)",
              "MODE_NONAN": "any Value except NaN", "MODE_PROMOTED_NONAN": "any Value except NaN; generic twin on float-promoted operands"}
     for p in prs:
         ob("C06", "P%03d" % p["top"], "runtime", "shell.rs", p["harness"], path=SHELL_PATH + p["harness"],
@@ -186,7 +187,7 @@ for _d in (1, 2, 64):
        stubs=VM_STUBS, assumes=["hook Heap::verif_set_gc_threshold (cfg(kani)) sets the threshold"])
 
 STR_STUBS = VM_STUBS + ["VM::intern_string -> alloc_string (identity of interned strings is not part of the property)"]
-for _l, _tier in ((2, "quick"), (3, "quick"), (4, "thorough")):
+for _l, _tier in ((2, "quick"), (3, "quick"), (4, "quick")):
     ob("C20", "O1len%d" % _l, "runtime", "shell.rs", "c20_o1_forloop_step_len%d" % _l, path=SHELL_PATH + "c20_o1_forloop_step_len%d" % _l, tier=_tier,
        timeout=2400, args=U7,
        what="StringForLoop, one step from any character-boundary offset of any valid UTF-8 string of %d bytes: yields exactly the scalar starting there as a one-character string and advances to the next boundary, or falls through unchanged at the end" % _l,
@@ -199,8 +200,8 @@ for _l, _tier in ((2, "thorough"), (3, "thorough")):
 for _l, _tier in ((2, "thorough"), (3, "thorough"), (4, "thorough")):
     ob("C20", "O3len%d" % _l, "runtime", "shell.rs", "c20_o3_lengths_len%d" % _l, path=SHELL_PATH + "c20_o3_lengths_len%d" % _l, tier=_tier,
        timeout=3600, args=U7,
-       what="len (opcode 161) and string.len are the byte length; string.char_len is the number of scalars (= items iteration yields)",
-       functions=["ops/arrays.inc handler 161", "stdlib/string.rs native_len / native_char_len (re-instantiated)"], bounds="string of exactly %d symbolic bytes (valid UTF-8)" % _l, stubs=VM_STUBS)
+       what="len (opcode 161 on a string) is the byte length = the sum of the sizes of the items iteration yields",
+       functions=["ops/arrays.inc handler 161"], bounds="string of exactly %d symbolic bytes (valid UTF-8)" % _l, stubs=VM_STUBS)
 
 C05_FNS = ["ops/call_global.inc", "ops/call_global_mono.inc", "ops/calls.inc handler 104", "dispatch/cache.rs", "VM::set_global_by_index"]
 C05_BOUNDS = ("caller + two distinct callees (arity 0/1 symbolic) + one native; global 0 bound to any of them, an int or null; the two words after the call "
@@ -253,3 +254,56 @@ for _h, _shape, _tier in (("c04_v1_shape_w1_k0", "1 word, no constants", "quick"
        what="verify_function on an arbitrary function object of this shape returns Ok or Err: no panic, no out-of-bounds index, no overflow",
        functions=["vm::verifier::verify_function and everything under vm/verifier/**", "OpCode::from_u8"],
        bounds="shape: %s; first word fully symbolic (any opcode byte, any operands); constants any bit pattern; global unwind 5" % _shape, stubs=VM_STUBS)
+
+# ---------------------------------------------------------------- C02 (frames, upvalues, loop super-instructions)
+for _oid, _h, _tier, _what, _fns in (
+        ("O5close", "c02_o5_closeupvals_exact", "quick", "CloseUpvals closes exactly the open upvalues of registers at or above base+a (value preserved) and leaves the others open", ["ops/closures.inc handler 38", "VM::close_upvalues_from", "VM::get_upvalue_value"]),
+        ("O5getset", "c02_o5_getset_upval", "thorough", "GetUpval/SetUpval read and write the live register through an open upvalue and the box through a closed one", ["ops/closures.inc handlers 36, 37", "VM::get_upvalue_value", "VM::set_upvalue_value"]),
+        ("O1return", "c02_o1_return_lands_in_caller", "quick", "Return r<a>: the value lands in the caller's window at caller_base + return_dest, the caller resumes at its saved ip, cached locals match the caller frame", ["ops/calls.inc handler 22"]),
+        ("O4loops", "c02_o4_forloop_iteration", "thorough", "ForLoopI / ForLoopIInc / WhileLoopLt: one iteration equals the documented range semantics (48-bit wrapping iterator, exclusive/inclusive bound, negative steps)", ["ops/control_flow.inc handlers 40, 41, 48"])):
+    ob("C02", _oid, "runtime", "shell.rs", _h, path=SHELL_PATH + _h, tier=_tier, timeout=1500, args=U7, what=_what, functions=_fns,
+       bounds="window base <= 2 (symbolic), 6 symbolic registers, upvalue location symbolic (open at any frame base <= 2 / register <= 3, or closed with any value); loop operands any 48-bit ints",
+       stubs=VM_STUBS)
+
+ob("C10", "O1strmb", "runtime", "shell.rs", "c10_o1_alloc_string_multibyte", path=SHELL_PATH + "c10_o1_alloc_string_multibyte", tier="quick", timeout=900, args=U7,
+   what="alloc_string of a concrete 2-byte, 1-character string with symbolic headroom: admitted iff the *byte* size fits", functions=["VM::alloc_string", "VM::ensure_heap_capacity"],
+   bounds=C10_BOUNDS, stubs=VM_STUBS)
+C13_STUBS = CALL_STUBS + ["VM::collect -> sets a flag (a real collection runs Heap::mark, which CBMC cannot finish: C03)"]
+ob("C13", "O1bexit", "runtime", "shell.rs", "c13_o1b_exit_inner_region_no_collect", path=SHELL_PATH + "c13_o1b_exit_inner_region_no_collect", tier="quick", timeout=900, args=U7,
+   what="ExitNoGc that leaves an inner region (depth >= 2 before) with the threshold crossed does not start a collection", functions=["ops/memory.inc handler 27"],
+   bounds="depth any usize >= 2; threshold crossed", stubs=C13_STUBS)
+ob("C13", "O2biff", "runtime", "shell.rs", "c13_o2b_maybe_collect_iff", path=SHELL_PATH + "c13_o2b_maybe_collect_iff", tier="quick", timeout=900, args=U7,
+   what="maybe_collect starts a collection iff no region is open and the threshold is crossed", functions=["VM::maybe_collect", "VM::is_in_no_gc", "Heap::should_collect"],
+   bounds="depth any usize; threshold any usize", stubs=C13_STUBS)
+for _h, _op, _tier in (("c13_o3_add_concat", 5, "quick"), ("c13_o3_alloc", 28, "thorough"), ("c13_o3_arraynewi", 130, "thorough"), ("c13_o3_arraylit", 134, "thorough"), ("c13_o3_stringforloop", 177, "thorough")):
+    ob("C13", "O3op%03d" % _op, "runtime", "shell.rs", _h, path=SHELL_PATH + _h, tier=_tier, timeout=2400, args=U7, env=RELEASE_ENV,
+       what="opcode %d (allocates) executed inside a region (depth 1..64) with the threshold crossed never starts a collection and leaves the depth alone" % _op,
+       functions=["ops handler %d" % _op, "VM::maybe_collect"], bounds="C04 step state (4 symbolic words, 6 registers, pool); threshold crossed; depth 1..64", stubs=C13_STUBS)
+
+# ---------------------------------------------------------------- C09 O4 byte buffers, C20 O3n native lengths
+BYTES_FNS = ["stdlib/bytes.rs re-instantiated byte for byte: native_read_*/native_write_* (impl_read!/impl_write_int! expansions), native_fill, native_copy, native_size, native_free",
+             "VM::get_resource / get_resource_mut / take_resource", "stdlib::helpers::{get_handle,get_int}"]
+BYTES_BOUNDS = "two live buffers of 4 and 3 symbolic bytes + one freed handle; every argument an arbitrary 64-bit Value"
+for _oid, _h, _tier, _what in (
+        ("O4wu8", "c09_o4_w_u8", "quick", "write_u8"), ("O4ru8", "c09_o4_r_u8", "thorough", "read_u8"),
+        ("O4wu16", "c09_o4_w_u16_le", "thorough", "write_u16 (little endian)"), ("O4ru16", "c09_o4_r_u16_le", "thorough", "read_u16 (little endian)"),
+        ("O4wi16be", "c09_o4_w_i16_be", "thorough", "write_i16_be (signed, big endian)"), ("O4ri16be", "c09_o4_r_i16_be", "thorough", "read_i16_be (signed, big endian)"),
+        ("O4wu32", "c09_o4_w_u32_le", "thorough", "write_u32 (width = whole buffer)"), ("O4ru32", "c09_o4_r_u32_le", "quick", "read_u32 (width = whole buffer)"),
+        ("O4wi8", "c09_o4_w_i8", "thorough", "write_i8"), ("O4ri8", "c09_o4_r_i8", "thorough", "read_i8"),
+        ("O4wi16", "c09_o4_w_i16_le", "thorough", "write_i16"), ("O4ri16", "c09_o4_r_i16_le", "thorough", "read_i16"),
+        ("O4wu16be", "c09_o4_w_u16_be", "thorough", "write_u16_be"), ("O4ru16be", "c09_o4_r_u16_be", "thorough", "read_u16_be"),
+        ("O4wi32", "c09_o4_w_i32_le", "thorough", "write_i32"), ("O4ri32", "c09_o4_r_i32_le", "thorough", "read_i32"),
+        ("O4wu32be", "c09_o4_w_u32_be", "thorough", "write_u32_be"), ("O4ru32be", "c09_o4_r_u32_be", "thorough", "read_u32_be"),
+        ("O4wi32be", "c09_o4_w_i32_be", "thorough", "write_i32_be"), ("O4ri32be", "c09_o4_r_i32_be", "quick", "read_i32_be (signed, big endian)"),
+        ("O4fill", "c09_o4_fill", "thorough", "fill"), ("O4copy", "c09_o4_copy", "quick", "copy incl. overlapping ranges inside one buffer (memmove semantics)"),
+        ("O4sizefree", "c09_o4_size_free", "thorough", "size / free / double free")):
+    ob("C09", _oid, "runtime", "shell.rs", _h, path=SHELL_PATH + _h, tier=_tier, timeout=1800, args=U7,
+       what="byte buffers, %s: a legal access reads/writes exactly the addressed bytes; out of range, negative, straddling, freed or never-issued handles and out-of-range values are errors that change no byte of any buffer" % _what,
+       functions=BYTES_FNS, bounds=BYTES_BOUNDS, stubs=VM_STUBS)
+
+ob("C01", "Unegf", "opt", "fold.rs", "c01_fold_unary_neg_float", path=FOLD_PATH + "c01_fold_unary_neg_float", tier="quick", timeout=600,
+   what="unary minus on a float literal folds to exactly the VM's negation (sign bit flipped: -0.0 from 0.0)", functions=["aelys_opt ConstantFolder::try_fold_unary"],
+   bounds="all f64 bit patterns", stubs=[])
+ob("C01", "Uint", "opt", "fold.rs", "c01_fold_unary_int", path=FOLD_PATH + "c01_fold_unary_int", tier="quick", timeout=600,
+   what="unary minus / bitwise not on an int literal fold to the VM's 48-bit result, and only for representable operands", functions=["aelys_opt ConstantFolder::try_fold_unary"],
+   bounds="all i64", stubs=[])
